@@ -1,5 +1,6 @@
 import Nstd.Common.Basic
 import Nstd.Future.Model
+import Nstd.Future.SpawnFail
 import Std.Data.HashSet
 /-
   Line protocol of the Future area (replay of a controlled-scheduler trace on the model).
@@ -10,7 +11,9 @@ import Std.Data.HashSet
     F            -> final summary line (same fields as the harness prints)
     X <max states> <cfg fields and scripts as for cfg>  -> exhaustive micro-step exploration of the model (test)
     W <walks> <seed> <cfg ...>  -> random micro-step walks of the model (test)
-    M            -> `M <t,t,...>`: the schedule of MICRO-steps executed so far (for `runSched`)
+    M            -> `M <t,t,...>`: the schedule of MICRO-steps executed so far (for `runSched` / `xrun`)
+    K            -> `K <pc,pc,...>`: the program counters (frame constructors) and branch edges `a>b` this run has executed
+  cfg option `cf=<mask>`: bit k set = the creation of the k-th pool worker fails (`SpawnFail.lean`: `xmove`)
   The output has the format of the harness trace, so the two streams are compared verbatim.
 -/
 open Nstd.Common
@@ -23,6 +26,9 @@ structure DState where
   hooks : Bool := false       -- the library carries the yield hooks at plain accesses: those frames are scheduling points too
   split : Bool := false       -- scheduler split mode: the run-on after an operation is a scheduler step of its own
   cont : List Tid := []       -- split mode: threads that have performed their operation and not yet run on
+  cf : Nat := 0               -- environment: which creations of pool workers fail (bit mask over context ids)
+  dead : List Tid := []       -- threads whose creation failed (never run)
+  pcs : Std.HashSet String := {}   -- coverage of the model: frame constructors stepped and edges taken in this run
 
 def kvNat (ws : List String) (key : String) (dflt : Nat) : Nat :=
   match ws.find? (fun w => w.startsWith (key ++ "=")) with
@@ -72,6 +78,76 @@ def parseCfg (ws : List String) : Option Config :=
                 tick := kvNat hd "tick" 0, spurious := kvNat hd "sp" 0, repaired := kvNat hd "rep" 0 = 1,
                 scripts := ops.map (fun sc => sc.filterMap id) }
 
+
+/-- name of the program counter (constructor) of a frame: coverage counters of the correspondence runs -/
+def frameTag : Frame → String
+  | .sSetLock _ => "sSetLock" | .sSetStore _ => "sSetStore" | .sSetUnlock _ => "sSetUnlock" | .sSetBcast _ _ => "sSetBcast"
+  | .sRstLock _ => "sRstLock" | .sRstStore _ => "sRstStore" | .sRstUnlock _ => "sRstUnlock"
+  | .sWaitLock _ => "sWaitLock" | .sWaitChk _ => "sWaitChk" | .sWaitUnlock _ => "sWaitUnlock" | .sWaitCwait _ => "sWaitCwait"
+  | .sWaitCwake _ => "sWaitCwake" | .sWaitRelock _ => "sWaitRelock"
+  | .fSet _ => "fSet" | .fRst _ => "fRst" | .fRstLoad _ => "fRstLoad" | .fWait _ => "fWait"
+  | .ring (.pushRead _) => "pushRead" | .ring (.pushChk _ _) => "pushChk" | .ring (.pushCas _ _) => "pushCas"
+  | .ring (.pushData _ _) => "pushData" | .ring (.pushPub _ _) => "pushPub"
+  | .ring .popRead => "popRead" | .ring (.popChk _) => "popChk" | .ring (.popCas _) => "popCas"
+  | .ring (.popData _) => "popData" | .ring (.popRel _ _) => "popRel"
+  | .runStart _ => "runStart" | .runChk1 _ => "runChk1" | .runPush2 _ => "runPush2" | .runChk2 _ => "runChk2" | .runSet => "runSet"
+  | .runAdd => "runAdd" | .runRdProc _ => "runRdProc" | .runRdTc _ => "runRdTc" | .runClk1 => "runClk1" | .runClk2 _ => "runClk2"
+  | .runClk3 => "runClk3" | .runSpLock => "runSpLock" | .runSpChk => "runSpChk" | .runSpUnlock _ => "runSpUnlock"
+  | .runSpStart _ => "runSpStart" | .runSpawned _ => "runSpawned"
+  | .runRetLock => "runRetLock" | .runRetChk => "runRetChk" | .runRetAfter => "runRetAfter" | .runRetUnlock => "runRetUnlock"
+  | .cleanAt _ => "cleanAt" | .cleanJoin _ _ => "cleanJoin"
+  | .wPop1 => "wPop1" | .wChk1 => "wChk1" | .wPop2 => "wPop2" | .wChk2 => "wChk2" | .wDeq => "wDeq" | .wDispatch => "wDispatch"
+  | .wAdd => "wAdd" | .wTerm => "wTerm"
+  | .pCall _ => "pCall" | .pBody _ => "pBody" | .pStore _ => "pStore" | .pSetRd _ => "pSetRd" | .pSetX _ _ => "pSetX"
+  | .pSig _ => "pSig" | .pDelete _ => "pDelete"
+  | .cNext => "cNext" | .cRdTp _ => "cRdTp" | .cSpin _ => "cSpin" | .cRdTp2 _ => "cRdTp2" | .cSwapTp _ => "cSwapTp"
+  | .cUnlockTp _ => "cUnlockTp" | .cJoin _ => "cJoin" | .cArm _ => "cArm" | .cStarted _ _ => "cStarted"
+  | .join _ => "join" | .joinClr _ => "joinClr" | .evJoined _ => "evJoined" | .evResult _ => "evResult" | .destroyF _ => "destroyF"
+  | .cEnd _ => "cEnd"
+  | .mInit => "mInit" | .mSpawn _ => "mSpawn" | .mSpawned _ _ => "mSpawned" | .mJoin _ => "mJoin" | .mDel => "mDel"
+  | .dPush _ => "dPush" | .dChk1 _ => "dChk1" | .dPush2 _ => "dPush2" | .dChk2 _ => "dChk2" | .dSet _ => "dSet" | .dJoin _ => "dJoin"
+  | .dFin => "dFin" | .tStart => "tStart" | .tExit => "tExit"
+
+/-- all program counters of the model (for the list of the ones no run reached) -/
+def allTags : List String :=
+  ["sSetLock", "sSetStore", "sSetUnlock", "sSetBcast", "sRstLock", "sRstStore", "sRstUnlock", "sWaitLock", "sWaitChk", "sWaitUnlock",
+   "sWaitCwait", "sWaitCwake", "sWaitRelock", "fSet", "fRst", "fRstLoad", "fWait", "pushRead", "pushChk", "pushCas", "pushData", "pushPub",
+   "popRead", "popChk", "popCas", "popData", "popRel", "runStart", "runChk1", "runPush2", "runChk2", "runSet", "runAdd", "runRdProc",
+   "runRdTc", "runClk1", "runClk2", "runClk3", "runSpLock", "runSpChk", "runSpUnlock", "runSpStart", "runSpawned", "runRetLock",
+   "runRetChk", "runRetAfter", "runRetUnlock", "cleanAt", "cleanJoin", "wPop1", "wChk1", "wPop2", "wChk2", "wDeq", "wDispatch", "wAdd",
+   "wTerm", "pCall", "pBody", "pStore", "pSetRd", "pSetX", "pSig", "pDelete", "cNext", "cRdTp", "cSpin", "cRdTp2", "cSwapTp", "cUnlockTp",
+   "cJoin", "cArm", "cStarted", "join", "joinClr", "evJoined", "evResult", "destroyF", "cEnd", "mInit", "mSpawn", "mSpawned", "mJoin",
+   "mDel", "dPush", "dChk1", "dPush2", "dChk2", "dSet", "dJoin", "dFin", "tStart", "tExit"]
+
+def topTag (s : State) (t : Tid) : String :=
+  match s.threads t with
+  | some { stack := fr :: _, .. } => frameTag fr
+  | _ => "-"
+
+/-- driver-only rule for the END of a run with failed thread creations: `~ThreadPool`'s join loop meets the context of a
+    never-started thread; `Thread::join` returns at once (`if(!thread) return 0;`), no scheduling point -/
+def passDead (dead : List Tid) (s : State) (t : Tid) : Option State :=
+  match s.threads t, s.pool with
+  | some th, some p =>
+    match th.stack with
+    | .dJoin i :: _ =>
+      match p.ctxs[i]? with
+      | some { tid := some w, .. } =>
+        if dead.contains w then some (setThread s t (th.cont [if i + 1 < p.ctxs.length then .dJoin (i + 1) else .dFin])) else none
+      | _ => none
+    | _ => none
+  | _, _ => none
+
+/-- one micro-step of the replay: the extended system of `SpawnFail.lean` (environment = bit mask `cf`) -/
+def stepD (cf : Nat) (dead : List Tid) (s : State) (t : Tid) : Option (State × List String × List Tid) :=
+  if dead.contains t then none else
+  match passDead dead s t with
+  | some s' => some (s', [], dead)
+  | none =>
+    match xmove cf { s := s, dead := dead } t with
+    | some (x', o) => some (x'.s, o, x'.dead)
+    | none => none
+
 /-- with the source hooks (fixes/future/hook-0001) the plain volatile accesses of the pool are scheduling points as
     well; the line the scheduler prints for such a point -/
 def hookLine (s : State) : Frame → Option String
@@ -92,31 +168,45 @@ def hookLine (s : State) : Frame → Option String
 
 def isSyncH (hooks : Bool) (s : State) (fr : Frame) : Bool := fr.isSync || (hooks && (hookLine s fr).isSome)
 
-def topIsSyncH (hooks : Bool) (s : State) (t : Tid) : Bool :=
+/-- scheduling point of the replay: as `isSyncH`, except the join of a never-started thread (no `pthread_join` call) -/
+def isSyncD (hooks : Bool) (dead : List Tid) (s : State) (t : Tid) (fr : Frame) : Bool :=
+  isSyncH hooks s fr && (passDead dead s t).isNone
+
+def topIsSyncH (hooks : Bool) (dead : List Tid) (s : State) (t : Tid) : Bool :=
   match s.threads t with
-  | some { stack := fr :: _, finished := false, .. } => isSyncH hooks s fr
+  | some { stack := fr :: _, finished := false, .. } => isSyncD hooks dead s t fr
   | _ => false
 
-/-- `runOn` with the hook frames as additional scheduling points; also counts the micro-steps -/
-def runOnH (hooks : Bool) : Nat → State → Tid → List String → Nat → State × List String × Nat
-  | 0, s, _, acc, n => (withFault s "runOn: out of fuel", acc, n)
-  | fuel + 1, s, t, acc, n =>
+/-- what a run-on accumulates: output lines, number of micro-steps, the `dead` list, coverage tags (pcs and edges) -/
+structure RunAcc where
+  out : List String := []
+  n : Nat := 0
+  dead : List Tid := []
+  tags : List String := []
+
+def RunAcc.add (a : RunAcc) (fr : Frame) (s' : State) (t : Tid) (o : List String) (dead' : List Tid) : RunAcc :=
+  { out := a.out ++ o, n := a.n + 1, dead := dead', tags := (frameTag fr ++ ">" ++ topTag s' t) :: frameTag fr :: a.tags }
+
+/-- `runOn` with the hook frames as additional scheduling points and the environment `cf`; also counts the micro-steps -/
+def runOnH (hooks : Bool) (cf : Nat) : Nat → State → Tid → RunAcc → State × RunAcc
+  | 0, s, _, a => (withFault s "runOn: out of fuel", a)
+  | fuel + 1, s, t, a =>
     match s.threads t with
     | some { stack := fr :: _, finished := false, .. } =>
-      if isSyncH hooks s fr then (s, acc, n)
-      else match step s t with
-        | some (s', o) => runOnH hooks fuel s' t (acc ++ o) (n + 1)
-        | none => (s, acc, n)
-    | _ => (s, acc, n)
+      if isSyncD hooks a.dead s t fr then (s, a)
+      else match stepD cf a.dead s t with
+        | some (s', o, dead') => runOnH hooks cf fuel s' t (a.add fr s' t o dead')
+        | none => (s, a)
+    | _ => (s, a)
 
-def macroStepH (hooks : Bool) (s : State) (t : Tid) : Option (State × List String × Nat) :=
+def macroStepH (hooks : Bool) (cf : Nat) (dead : List Tid) (s : State) (t : Tid) : Option (State × RunAcc) :=
   match s.threads t with
   | some { stack := fr :: _, finished := false, .. } =>
-    if isSyncH hooks s fr then
-      match step s t with
-      | some (s', o) =>
+    if isSyncD hooks dead s t fr then
+      match stepD cf dead s t with
+      | some (s', o, dead') =>
         let pre := if fr.isSync then [] else (hookLine s fr).toList
-        some (runOnH hooks 10000 s' t (pre ++ o) 1)
+        some (runOnH hooks cf 10000 s' t (({ dead := dead } : RunAcc).add fr s' t (pre ++ o) dead'))
       | none => none
     else none
   | _ => none
@@ -127,13 +217,13 @@ def noPost : Frame → Bool
   | .sWaitCwait _ | .sWaitCwake _ | .tExit | .runSpawned _ | .mSpawned _ _ => true
   | fr => !fr.isSync
 
-def liveThreads (s : State) : List Tid :=
-  (List.range s.nthreads).filter (fun t => match s.threads t with
+def liveThreads (s : State) (dead : List Tid := []) : List Tid :=
+  (List.range s.nthreads).filter (fun t => !dead.contains t && match s.threads t with
     | some th => !th.finished
     | none => false)
 
-def enabledList (hooks : Bool) (s : State) (cont : List Tid := []) : List Tid :=
-  (liveThreads s).filter (fun t => cont.contains t || (topIsSyncH hooks s t && enabled s t))
+def enabledList (hooks : Bool) (s : State) (cont : List Tid := []) (dead : List Tid := []) : List Tid :=
+  (liveThreads s dead).filter (fun t => cont.contains t || (topIsSyncH hooks dead s t && enabled s t))
 
 def pendName (s : State) (t : Tid) : String :=
   match s.threads t with
@@ -352,43 +442,46 @@ def stepLine (d : DState) (ws : List String) : DState × String :=
     | none => ({}, "bad-op")
     | some cfg =>
       let hooks := kvNat ((splitBars rest).headD []) "hooks" 0 = 1
-      let (s, o, n) := runOnH hooks 10000 (State.init cfg) 0 [] 0
-      ({ st := some s, steps := 0, micro := List.replicate n 0, hooks := hooks, split := kvNat ((splitBars rest).headD []) "split" 0 = 1 },
-        "\n".intercalate ("ok" :: o))
+      let cf := kvNat ((splitBars rest).headD []) "cf" 0
+      let (s, a) := runOnH hooks cf 10000 (State.init cfg) 0 {}
+      ({ st := some s, steps := 0, micro := List.replicate a.n 0, hooks := hooks, split := kvNat ((splitBars rest).headD []) "split" 0 = 1,
+         cf := cf, dead := a.dead, pcs := a.tags.foldl (fun h x => h.insert x) {} },
+        "\n".intercalate ("ok" :: a.out))
   | ["S", ts] =>
     match d.st, ts.toNat? with
     | some s, some t =>
-      let en := enabledList d.hooks s d.cont
+      let en := enabledList d.hooks s d.cont d.dead
       let hdr := s!"S {t} en=" ++ ",".intercalate (en.map toString)
       let bump := fun (s' : State) => if (d.steps + 1) % 32 = 0 then compact s' else s'
       if d.cont.contains t then
         -- split mode: the run-on of an operation performed earlier
-        let (s', o, k) := runOnH d.hooks 10000 s t [] 0
-        ({ d with st := some (bump s'), steps := d.steps + 1, micro := List.replicate k t ++ d.micro, cont := d.cont.filter (· ≠ t) },
-          "\n".intercalate (hdr :: "O cont thread 0" :: o ++ faultLines s'))
+        let (s', a) := runOnH d.hooks d.cf 10000 s t { dead := d.dead }
+        ({ d with st := some (bump s'), steps := d.steps + 1, micro := List.replicate a.n t ++ d.micro, cont := d.cont.filter (· ≠ t),
+                  dead := a.dead, pcs := a.tags.foldl (fun h x => h.insert x) d.pcs },
+          "\n".intercalate (hdr :: "O cont thread 0" :: a.out ++ faultLines s'))
       else
       match (if d.split then
           (match s.threads t with
            | some { stack := fr :: _, finished := false, .. } =>
-             if isSyncH d.hooks s fr && !noPost fr then
-               (match step s t with
-                | some (s', o) => some (s', o, 1, true)
+             if isSyncD d.hooks d.dead s t fr && !noPost fr then
+               (match stepD d.cf d.dead s t with
+                | some (s', o, dead') => some (s', (({ dead := d.dead } : RunAcc).add fr s' t o dead'), true)
                 | none => none)
-             else (macroStepH d.hooks s t).map (fun (a, b, c) => (a, b, c, false))
+             else (macroStepH d.hooks d.cf d.dead s t).map (fun (a, b) => (a, b, false))
            | _ => none)
-        else (macroStepH d.hooks s t).map (fun (a, b, c) => (a, b, c, false))) with
-      | some (s', o, k, deferred) =>
-        ({ d with st := some (bump s'), steps := d.steps + 1, micro := List.replicate k t ++ d.micro,
-                  cont := if deferred then t :: d.cont else d.cont },
-          "\n".intercalate (hdr :: o ++ faultLines s'))
+        else (macroStepH d.hooks d.cf d.dead s t).map (fun (a, b) => (a, b, false))) with
+      | some (s', a, deferred) =>
+        ({ d with st := some (bump s'), steps := d.steps + 1, micro := List.replicate a.n t ++ d.micro,
+                  cont := if deferred then t :: d.cont else d.cont, dead := a.dead, pcs := a.tags.foldl (fun h x => h.insert x) d.pcs },
+          "\n".intercalate (hdr :: a.out ++ faultLines s'))
       | none => (d, hdr ++ s!"\nMODEL-DISABLED {t}")
     | _, _ => (d, "bad-op")
   | ["V"] =>
     match d.st with
     | some s =>
-      let live := liveThreads s
+      let live := liveThreads s d.dead
       if live.isEmpty then (d, s!"V DONE steps={d.steps}")
-      else if (enabledList d.hooks s d.cont).isEmpty then
+      else if (enabledList d.hooks s d.cont d.dead).isEmpty then
         (d, "D " ++ " ".intercalate (live.map (fun t => s!"t{t}:{pendName s t}")) ++ s!"\nV DEADLOCK steps={d.steps}")
       else (d, s!"V RUNNING steps={d.steps}")
     | none => (d, "bad-op")
@@ -417,6 +510,8 @@ def stepLine (d : DState) (ws : List String) : DState × String :=
       | some (pre, t, len) => (d, s!"C cycle thread={t} len={len} prefix={",".intercalate (pre.map toString)}")
       | none => (d, "C none")
     | _, _, _ => (d, "bad-op")
+  | ["K"] => (d, "K " ++ ",".intercalate d.pcs.toList)
+  | ["KALL"] => (d, "K " ++ ",".intercalate allTags)
   | ["M"] => (d, "M " ++ ",".intercalate (d.micro.reverse.map toString))
   | ["F"] =>
     match d.st with
